@@ -225,7 +225,7 @@ PROPS = {
         level_note="trusted: TLC, the harness's id<->f64 tables and its use of public constructors/accessors; claims hold for the explored cases",
         technique=TECH_TRACE,
         mc=[CODEC_MC],
-        stages=[dict(cmd="codec", spec="Trace_Codec",
+        stages=[dict(cmd="codec", spec="Trace_Codec", gen="Gen_Shapes",
                      quick=dict(chunks=6, cases=8, large=1),
                      thorough=dict(chunks=16, cases=40, large=4, sweep=1))],
         rule="a case = a file of 1..4 random shapes of one type (13 types; small/medium/large part structures; "
@@ -241,7 +241,7 @@ PROPS = {
         level_note="trusted: TLC and the TLA+ StrictShp operator (checked against the reference encoder by MC_Codec)",
         technique="TLA+ strict decoder evaluated by TLC on real output bytes (trace validation) + TLC model check of decoder/encoder",
         mc=[CODEC_MC],
-        stages=[dict(cmd="codec", spec="Trace_Codec",
+        stages=[dict(cmd="codec", spec="Trace_Codec", gen="Gen_Shapes",
                      quick=dict(chunks=6, cases=10, large=1),
                      thorough=dict(chunks=16, cases=60, large=6, sweep=1))],
         rule="a case = the bytes left by the real writer (cursor+drop, cursor+finalize, by path) for 0..4 shapes; "
@@ -328,7 +328,7 @@ PROPS = {
         level_note="trusted: TLC; sizes of shapes beyond the sampled structures are not covered",
         technique=TECH_TRACE,
         mc=[CODEC_MC],
-        stages=[dict(cmd="codec", spec="Trace_Codec",
+        stages=[dict(cmd="codec", spec="Trace_Codec", gen="Gen_Shapes",
                      quick=dict(chunks=4, cases=12, large=2),
                      thorough=dict(chunks=12, cases=80, large=10, sweep=1))],
         rule="a case = shapes of one type; size_in_bytes, length of write_to output and the record's content-length "
